@@ -38,9 +38,7 @@ def undefined_flags(inst, pre):
         if c != 1:
             u.add("of")
         if c >= w and f in ("shl", "shr"):
-            u.add("cf")
-        if c > w:
-            u.update(["cf"])
+            u.add("cf")             # SDM: CF is undefined for SHL / SHR when the count is >= the operand size; for SAR it stays the sign bit
     elif f in ("rol", "ror", "rcl", "rcr"):
         c = (cnt or 0) & 0x1F
         if f in ("rcl", "rcr"):
